@@ -1,4 +1,4 @@
-use yasna::{Tag, DERWriter, BERReader};
+use yasna::{Tag, DERWriter, BERReader, ASN1Error, ASN1ErrorKind};
 use model::error::{RdpResult, Error};
 use indexmap::map::IndexMap;
 
@@ -730,6 +730,7 @@ pub fn to_der(message: &dyn ASN1) -> Vec<u8> {
 
 /// Deserialize an ASN1 message from a stream
 pub fn from_der(message: &mut dyn ASN1, stream: &[u8]) ->RdpResult<()> {
+    check_lengths(stream)?;
     Ok(yasna::parse_der(stream, |reader| {
         if let Err(Error::ASN1Error(e)) = message.read_asn1(reader) {
             return Err(e)
@@ -740,6 +741,7 @@ pub fn from_der(message: &mut dyn ASN1, stream: &[u8]) ->RdpResult<()> {
 
 /// Deserialize an ASN1 message from a stream using BER
 pub fn from_ber(message: &mut dyn ASN1, stream: &[u8]) ->RdpResult<()> {
+    check_lengths(stream)?;
     Ok(yasna::parse_ber(stream, |reader| {
         if let Err(Error::ASN1Error(e)) = message.read_asn1(reader) {
             return Err(e)
@@ -755,4 +757,55 @@ macro_rules! sequence {
          $( map.insert($key.to_string(), Box::new($val)); )*
          map
     }}
+}
+
+/// yasna adds the length announced by an element to its read position
+/// without checking for overflow, and slices with the result : a length
+/// close to usize::MAX sent by the peer makes it panic.
+/// All headers of the message are walked first and a length greater
+/// than what is left of the message is refused, the way yasna refuses
+/// any other length that is too long
+fn check_lengths(stream: &[u8]) -> RdpResult<()> {
+    let too_long = || Error::ASN1Error(ASN1Error::new(ASN1ErrorKind::Eof));
+    let mut pos = 0;
+    while pos < stream.len() {
+        let constructed = stream[pos] & 0x20 != 0;
+        let high_tag_number = stream[pos] & 0x1f == 0x1f;
+        pos += 1;
+        if high_tag_number {
+            // tag number on the following bytes, the last one have its high bit cleared
+            while pos < stream.len() && stream[pos] & 0x80 != 0 {
+                pos += 1;
+            }
+            pos += 1;
+        }
+        if pos >= stream.len() {
+            // truncated header : yasna will complain
+            break;
+        }
+        let first = stream[pos];
+        pos += 1;
+        let length = if first & 0x80 == 0 {
+            first as usize
+        } else {
+            // 0x80 is the indefinite form : content is walked as any other
+            let size = (first & 0x7f) as usize;
+            if stream.len() - pos < size {
+                break;
+            }
+            let mut length: usize = 0;
+            for byte in &stream[pos..pos + size] {
+                length = length.checked_mul(256).and_then(|l| l.checked_add(*byte as usize)).ok_or_else(too_long)?;
+            }
+            pos += size;
+            length
+        };
+        if length > stream.len() - pos {
+            return Err(too_long());
+        }
+        if !constructed {
+            pos += length;
+        }
+    }
+    Ok(())
 }
